@@ -324,6 +324,10 @@ impl Family for C02 {
         out
     }
 
+    fn long_running(s: &S02) -> bool {
+        s.giant.is_some()
+    }
+
     fn rule() -> &'static str {
         "one case = (endianness, reader {BufBitReader over u8/u16/u32/u64, BitReader}, backend {zero-extended, strict, vector/slice writer read back, WordAdapter over SimDisk, WordAdapter over std BufReader over SimDisk; the two device backends with benign Short/Interrupted read faults at a per-run rate 0-30%}, image pattern {random, all-ones, all-zeros, sparse, long zero runs} of 1-64 words, history of <=48 read_bits/read_unary/skip_bits/peek_bits(x2)/clone ops with widths biased to 0,1,W-1,W,W+1,2W-1..2W+1,63,64 and to the distance to the next word boundary; on zero-extended backends the history runs up to 3 words past the end). distinct_nontrivial = distinct (endianness, reader, op kind, bits held in the reader's buffer before the op as measured from the backend word counter, width argument, previous op kind) signatures Scale scenarios: one run in 200-400 has several hundred operations or a zero run / unary part / copy / skip / slice above 2^16 bits; one run in 100 000 (sim/src/giant.rs) has a zero run of 2^32-2 .. 2^32+137 bits served by a sparse word source (real head and tail words, zero words in between) and read by one read_unary."
     }
